@@ -216,6 +216,8 @@ fn resource_leaf(framed: bool) -> BoxedStrategy<E> {
         prop_oneof![
             4 => prop::sample::select(NAME_POOL.to_vec()).prop_map(|s| s.to_string()),
             1 => "[a-c*?]{1,3}",
+            // strings that are special to the code under test (template holes, generated names)
+            1 => prop::sample::select(crate::dict::names()),
             1 => (0u32..400).prop_map(|i| format!("n{i}")),
             // a string and its escaped spelling, with and without glob characters
             1 => prop::sample::select(vec!["src", "src/i", "a/i", "foo/i", "foo", "*.c/i", "*.c", "x|i", "x"]).prop_map(|s| s.to_string()),
